@@ -14,6 +14,7 @@ import (
 	"strconv"
 	"strings"
 	"sync"
+	"sync/atomic"
 	"testing"
 	"time"
 )
@@ -132,6 +133,7 @@ type vfRun struct {
 	replay    bool
 	replayCase int
 	start     time.Time
+	aborted   atomic.Bool
 }
 
 const vfMaxViolationsPerSig = 3
@@ -195,10 +197,15 @@ func vfMain(t *testing.T, prop string, sizes vfSizes, rule string, fn func(c *vf
 	if run.replay {
 		lo, hi = run.replayCase, run.replayCase+1
 	}
+	done := 0
 	for i := lo; i < hi; i++ {
 		run.runCase(i, fn)
+		done++
+		if run.aborted.Load() {
+			break
+		}
 	}
-	run.res.Cases = hi - lo
+	run.res.Cases = done
 	run.res.Completed = true
 }
 
@@ -363,6 +370,10 @@ func (c *vfCase) Trace() []string {
 	defer c.tmu.Unlock()
 	return append([]string(nil), c.trace...)
 }
+
+// Abort ends the shard after the current case: a round that left goroutines parked inside MetalLB
+// would only make every later round of this process wait for its watchdog too.
+func (c *vfCase) Abort() { c.run.aborted.Store(true) }
 
 func (c *vfCase) Inconclusive(reason string) {
 	c.run.mu.Lock()
